@@ -44,6 +44,9 @@ pub const POST_EXPIRY_FACTOR: u64 = 4;
 pub const REAL_PAST_FACTOR: u64 = 8;
 /// the capture pipeline adds Compact's clean-up (prefix/suffix scans between neighbouring ops)
 pub const CAPTURE_POST_EXPIRY_FACTOR: u64 = 8;
+/// comparisons after a real deadline passed in the middle of a run: the rest of the step the expiry
+/// falls into (one Myers round, one LCS row) plus the fallback
+pub const REAL_MID_FACTOR: u64 = 8;
 
 /// Wall-clock semantics that probe-indexed time cannot see (one fixed case per run, mode 7):
 /// * a timeout is relative to the start of the diff, not to the moment the builder was configured;
@@ -109,7 +112,34 @@ fn check_wall_clock(case: &Case, obs: &mut Obs) -> Verdict {
             alg_name(c.alg)
         ));
     }
-    obs.executions = 5;
+    // an absolute deadline is absolute: configured 0.3 s ahead on a builder that is used 0.5 s
+    // later, it has passed (the result is an early-expiry approximation, not the exact diff)
+    {
+        let mut approx = vec![];
+        for k in 0..4u64 {
+            if let Ok(o) = capture(c, Some(k)) {
+                approx.push(o);
+            }
+        }
+        if !approx.contains(&want) {
+            let mut cfg = TextDiff::configure();
+            cfg.algorithm(alg).deadline(Instant::now() + Duration::from_millis(300));
+            std::thread::sleep(Duration::from_millis(500));
+            match guard(|| cfg.diff_slices(&a, &b).ops().to_vec()) {
+                Ok(o) if approx.contains(&o) => {}
+                Ok(o) => {
+                    return Verdict::Fail(format!(
+                        "{}: a builder configured with deadline(now + 0.3 s) and used 0.5 s later gives {} ops that are not an early-expiry approximation (exact diff: {}): the absolute deadline moved",
+                        alg_name(c.alg),
+                        o.len(),
+                        o == want
+                    ))
+                }
+                Err(p) => return Verdict::Fail(format!("diff with a configured deadline: {}", p)),
+            }
+        }
+    }
+    obs.executions = 6;
     obs.nontrivial = want.len() >= 2;
     obs.class("wall-clock semantics (reused timeout, unlimited timeout)");
     Verdict::Pass
@@ -468,6 +498,64 @@ fn check_case(case: &Case, obs: &mut Obs) -> Verdict {
             }
         }
     }
+    // the real clock running out in the MIDDLE of the run: an item whose == waits, at a chosen
+    // comparison, until a real deadline (150 us ahead) has passed; the comparisons made from then on
+    // are bounded like those after a probe-indexed expiry plus the rest of the step the expiry falls
+    // into, and the result is a valid script.  Probe-indexed time cannot see a probe that was moved
+    // out of a loop or is consulted once per run; this does.
+    {
+        use crate::oracle::blocking::{self, Blk};
+        let ob: Vec<Blk> = old.iter().map(|x| Blk(*x)).collect();
+        let nb: Vec<Blk> = new.iter().map(|x| Blk(*x)).collect();
+        let run = |deadline: Option<Instant>| -> Result<Vec<Ev>, String> {
+            guard(|| {
+                let mut r = Recorder::new();
+                algorithms::diff_deadline(alg_of(c.alg), &mut r, &ob[..], c.old_r(), &nb[..], c.new_r(), deadline).unwrap();
+                r.events
+            })
+        };
+        blocking::arm(None, u64::MAX);
+        let total = match run(None) {
+            Ok(_) => blocking::count(),
+            Err(p) => return Verdict::Fail(format!("{} without deadline: {}", name, p)),
+        };
+        execs += 1;
+        let bound_mid = REAL_MID_FACTOR * (n + m) as u64 + 16;
+        let mut points = vec![1u64, total / 3 + 1, total / 2 + 1];
+        if let Some(r) = case.ks.first() {
+            points.push(pos(*r, total as usize) as u64 + 1);
+        }
+        points.sort();
+        points.dedup();
+        for at in points {
+            if total == 0 {
+                break;
+            }
+            let deadline = Instant::now() + Duration::from_micros(150);
+            blocking::arm(Some(deadline), at);
+            let ev = run(Some(deadline));
+            let (after, expired) = (blocking::after(), blocking::expired());
+            blocking::arm(None, u64::MAX);
+            execs += 1;
+            let ev = match ev {
+                Ok(e) => e,
+                Err(p) => return Verdict::Fail(format!("{} with a real deadline passing at comparison {} of {}: {}", name, at, total, p)),
+            };
+            if let Err(msg) = validate_raw(&ev, c.old_r(), c.new_r(), &eq) {
+                return Verdict::Fail(format!("{} with a real deadline passing at comparison {} of {}: stream {:?}: {}", name, at, total, ev, msg));
+            }
+            if n + m > 0 {
+                obs.metric("real deadline passing in mid-run: later comparisons / (N+M)", after as f64 / (n + m) as f64);
+            }
+            if after > bound_mid {
+                return Verdict::Fail(format!(
+                    "{}: {} element comparisons after a real deadline had passed in mid-run (at comparison {} of {}), more than {}*(N+M)+16 = {} (N={}, M={})",
+                    name, after, at, total, REAL_MID_FACTOR, bound_mid, n, m
+                ));
+            }
+            obs.class_if(expired && after > 0, "real clock: expiry in mid-run, work went on");
+        }
+    }
     match raw_cnt(c, &oc, &nc, Some(far_future())) {
         Ok(ev) if ev == e0 => {}
         Ok(ev) => return Verdict::Fail(format!("{}: real clock with a deadline one hour ahead gives {:?}, no deadline gives {:?}", name, ev, e0)),
@@ -595,6 +683,25 @@ fn enum_huge(_tier: Tier, f: &mut dyn FnMut(Case) -> bool) {
     }
 }
 
+fn enum_deep(_tier: Tier, f: &mut dyn FnMut(Case) -> bool) {
+    // shortest scripts of several thousand edits (more than 1024 and 2048 search rounds): a deadline
+    // that never expires must not change them
+    for alg in 0..2u8 {
+        let cases = [
+            (lcg_seq(61, 2200, 40), lcg_seq(62, 2200, 40)),
+            ((0..1500u32).collect::<Vec<u32>>(), (5000..6500u32).collect::<Vec<u32>>()),
+            (lcg_seq(63, 3000, 7), lcg_seq(64, 700, 7).into_iter().map(|x| x + 3).collect()),
+        ];
+        for (a, b) in cases {
+            let mut c = SeqCase::full(alg, a, b);
+            c.mode = 9;
+            if !f(Case { seq: c, ks: vec![] }) {
+                return;
+            }
+        }
+    }
+}
+
 fn enum_wall(_tier: Tier, f: &mut dyn FnMut(Case) -> bool) {
     // three tiny inputs whose exact diff differs from the expired-deadline approximation
     for alg in 0..3u8 {
@@ -618,11 +725,12 @@ impl Prop for C07 {
     const ID: &'static str = "C07";
     const LEVEL: &'static str = "fault_enumeration";
     fn rule() -> String {
-        "cases = (algorithm, old, new, ranges, entry point in {algorithms::diff_deadline, diff_slices_deadline}); for each case the number of deadline probes T is learnt with a never-expiring virtual clock and then EVERY expiry index k in 0..=T is executed (T <= 64) or {0..7, T-1, T} plus 16 generated indices (T > 64) ('executions' counts runs). Families: the shared small mixture, unrelated 50-400 item sequences over alphabets 2-6 (many probes), and the Patience anchor/gap family. Oracle per k: C01 stream validator, finish once and last, C02+C09 oracles on capture_diff_deadline, at most 4*(N+M)+16 element comparisons after expiry (counting PartialEq; through capture_diff_deadline, whose clean-up compares items too, at most 8*(N+M)+16; measured maxima under metrics_max), k >= T and never-expiring clock => identical to no deadline; plumbing: TextDiffConfig::deadline / ::timeout / capture_diff_slices_deadline give valid scripts at every k, the ops of capture_diff_deadline when the clock expires at the first probe or never, and consult the clock whenever the direct call does; real clock: a run whose deadline passed before the call makes at most 8*(N+M)+16 comparisons in total (this sees a probe that is consulted too rarely, which probe-indexed time cannot), deadline in the past == expiry at probe 0, deadline one hour ahead == no deadline, a builder on which deadline(past) is set last (alone, after timeout(1 h), after deadline(far)) == expired; wall-clock stage: unrepresentably large timeouts == no deadline (no panic), and a timeout counts from the start of the diff (a builder configured 1.7 s before use with timeout(1.5 s) still gives the exact diff of a tiny input; a mismatch must repeat 3 times). 1 random case in 40 is an expensive input (257-400 items; LCS tables of 66 000-160 000 cells) on which only never-expiring deadlines are executed (virtual, real, capture_diff_deadline, TextDiffConfig::deadline/timeout) and compared with no deadline. Non-trivial = T >= 2 and some expiry index changes the result; distinct = distinct serialized case.".into()
+        "cases = (algorithm, old, new, ranges, entry point in {algorithms::diff_deadline, diff_slices_deadline}); for each case the number of deadline probes T is learnt with a never-expiring virtual clock and then EVERY expiry index k in 0..=T is executed (T <= 64) or {0..7, T-1, T} plus 16 generated indices (T > 64) ('executions' counts runs). Families: the shared small mixture, unrelated 50-400 item sequences over alphabets 2-6 (many probes), and the Patience anchor/gap family. Oracle per k: C01 stream validator, finish once and last, C02+C09 oracles on capture_diff_deadline, at most 4*(N+M)+16 element comparisons after expiry (counting PartialEq; through capture_diff_deadline, whose clean-up compares items too, at most 8*(N+M)+16; measured maxima under metrics_max), k >= T and never-expiring clock => identical to no deadline; plumbing: TextDiffConfig::deadline / ::timeout / capture_diff_slices_deadline give valid scripts at every k, the ops of capture_diff_deadline when the clock expires at the first probe or never, and consult the clock whenever the direct call does; real clock: a run whose deadline passed before the call makes at most 8*(N+M)+16 comparisons in total (this sees a probe that is consulted too rarely, which probe-indexed time cannot), deadline in the past == expiry at probe 0, a real deadline 150 us ahead that passes in mid-run (an item whose == waits for it at comparison 1, a third, a half and a generated point of the run) leaves a valid script and at most 8*(N+M)+16 later comparisons, deadline one hour ahead == no deadline, a builder on which deadline(past) is set last (alone, after timeout(1 h), after deadline(far)) == expired; wall-clock stage: unrepresentably large timeouts == no deadline (no panic), and a timeout counts from the start of the diff (a builder configured 1.7 s before use with timeout(1.5 s) still gives the exact diff of a tiny input; a mismatch must repeat 3 times). 1 random case in 40 is an expensive input (257-400 items; LCS tables of 66 000-160 000 cells) on which only never-expiring deadlines are executed (virtual, real, capture_diff_deadline, TextDiffConfig::deadline/timeout) and compared with no deadline. Non-trivial = T >= 2 and some expiry index changes the result; distinct = distinct serialized case.".into()
     }
     fn assumptions() -> Vec<String> {
         vec![
-            "time is probe-indexed (virtual clock hook): a change that merely probes less often is only observable through the real-clock run with an already expired deadline (total comparison budget)".into(),
+            "time is probe-indexed (virtual clock hook): a change that merely probes less often is only observable through the real-clock runs (deadline already passed: total comparison budget; deadline passing in mid-run: comparisons made afterwards)".into(),
+            "the real-clock mid-run bound 8*(N+M)+16 covers the rest of the step the expiry falls into (one Myers round, one LCS row) plus the fallback; measured maximum under metrics_max".into(),
             "the promptness constant 4 has >= 4x head-room over the measured maximum (about 0.8*(N+M))".into(),
             "wasm32 behaviour is out of scope".into(),
         ]
@@ -646,9 +754,17 @@ impl Prop for C07 {
                 },
             },
             Stage {
+                name: "deep-never",
+                kind: StageKind::Enumerate {
+                    scope: "6 fixed inputs (Myers, Patience) whose shortest script has thousands of edits (2200 x 2200 items over 40 symbols, 1500 x 1500 distinct unrelated items, 3000 x 700 over 7 symbols): never-expiring deadlines (virtual, real, capture_diff_deadline, TextDiffConfig::deadline/timeout) == no deadline".into(),
+                    exhaustive: true,
+                    gen: enum_deep,
+                },
+            },
+            Stage {
                 name: "wall-clock",
                 kind: StageKind::Enumerate {
-                    scope: "6 fixed inputs (a tiny and a 300-item (LCS: 60-item) one per algorithm): timeout(Duration::MAX | u64::MAX s | 2^62 s) == no deadline; timeout(0) and timeout(1 ns) give the approximation of an expiry at one of the first four probes (checked where the exact diff differs from all of them); a builder configured with timeout(1.5 s) and used 1.7 s later == no deadline".into(),
+                    scope: "6 fixed inputs (a tiny and a 300-item (LCS: 60-item) one per algorithm): timeout(Duration::MAX | u64::MAX s | 2^62 s) == no deadline; timeout(0) and timeout(1 ns) give the approximation of an expiry at one of the first four probes (checked where the exact diff differs from all of them); a builder configured with timeout(1.5 s) and used 1.7 s later == no deadline; a builder configured with deadline(now + 0.3 s) and used 0.5 s later == expired".into(),
                     exhaustive: true,
                     gen: enum_wall,
                 },
